@@ -571,7 +571,16 @@ def np_exp(ex, st, a, **kw):
     return s_exp(a)
 
 
+def _logical(fn):
+    def model(ex, st, *args, **kw):
+        r, obls = elementwise(lambda *xs: fn(*[truthy(x) for x in xs]), st, *args)
+        ex.emit_all(st, 'shape', obls, kw.get('_node'))
+        return r
+    return model
+
+
 LIB = {
+    'np.logical_and': _logical(band), 'np.logical_or': _logical(bor), 'np.logical_not': _logical(bnot),
     'np.exp': np_exp, 'math.exp': np_exp,
     'np.array': np_array, 'np.asarray': np_asarray, 'np.fromiter': lambda ex, st, v, **kw: np_array(ex, st, v), 'np.arange': np_arange, 'np.full': np_full,
     'np.ones': np_ones, 'np.zeros': np_zeros, 'np.zeros_like': np_zeros_like, 'np.minimum': np_minimum,
